@@ -141,22 +141,25 @@ int main(int argc, char** argv)
     C22 mon;
     return ps::Main(argc, argv, "C22", [] {
     ps::Opts o;
-    if (vx::thorough()) {
-        o.classes = {"N", "N3", "NY", "NL", "NQ", "C", "R", "PK", "M", "MC", "I", "X", "T", "P"};
-        o.fees = "lh";
-        o.child_fees = "h";
-        o.thr = "ce";
-        o.max_idx = 2;
-    } else {
-        o.classes = {"N", "NY", "NL", "NQ", "C", "R", "PK", "M", "MC", "I", "X", "T", "P"};
-        o.fees = "h";
-        o.child_fees = "h";
-        o.thr = "e";
-        o.max_idx = 1;
-        o.prio_minus = false; o.prio_next = false;
-    }
+    o.classes = {"N", "NY", "NL", "NQ", "C", "R", "PK", "M", "MC", "I", "T", "P"};
+    o.guarded = true;
+    o.fees = "h";
+    o.child_fees = "h";
+    o.thr = "e";
+    o.max_idx = 1;
+    o.prio_minus = false; o.prio_next = false;
     o.pk_parent = "l"; o.pk_child = "k";
     o.depth_quick = 3; o.depth_thorough = 4;
-    return ps::Configs{{"", o}};
+    if (!vx::thorough()) return ps::Configs{{"", o}};
+    // thorough: the same menu plus the competing-branch reorg one level deeper, and a second configuration whose
+    // pool starts 12 filler txs below the size limit (trimming, eviction of whole chunks, rolling minimum fee)
+    o.classes.insert("X");
+    ps::Opts f = o;
+    f.prefill = 12;
+    f.base_blocks = 126;
+    f.classes = {"N", "C", "R", "PK", "M", "MC", "I", "T", "P"};
+    f.fees = "mh";
+    f.depth_thorough = 3;
+    return ps::Configs{{"", o}, {"_full", f}};
     }, mon);
 }
